@@ -81,8 +81,8 @@ static scpi_result_t generic(scpi_t *c) {
     if (tag < 0 || tag >= MAXCMD || !scripts[tag]) return SCPI_RES_OK;
     char *sc = strdup(scripts[tag]); scpi_result_t ret = SCPI_RES_OK; char *save = NULL;
     if (strcmp(sc, "-") != 0) for (char *op = strtok_r(sc, ";", &save); op; op = strtok_r(NULL, ";", &save)) {
-        char name[16]; static char a1[1 << 15]; char a2[64] = "", a3[64] = ""; a1[0] = 0;
-        sscanf(op, "%15[^:]:%32767[^:]:%63[^:]:%63s", name, a1, a2, a3);
+        char name[16]; static char a1[1 << 15], a3[1 << 15]; char a2[64] = ""; a1[0] = 0; a3[0] = 0;
+        sscanf(op, "%15[^:]:%32767[^:]:%63[^:]:%32767s", name, a1, a2, a3);
         int ok = 1, mand = 0, isread = 0;
 #define AFTER(m) isread = 1; mand = (m);
         if (!strcmp(name, "PI32")) { int32_t v = 0; AFTER(atoi(a1)) ok = SCPI_ParamInt32(c, &v, mand); flushw(); oprintf(" P1:%d:", ok); if (ok) oprintf("%d", v); }
@@ -113,15 +113,17 @@ static scpi_result_t generic(scpi_t *c) {
             else { float *a = zalloc(cap * 4); ok = SCPI_ParamArrayFloat(c, a, cap, &n, SCPI_FORMAT_ASCII, mand); oprintf(" P18:%d:", ok); if (ok) for (size_t i = 0; i < n && i < cap; i++) { uint32_t b; memcpy(&b, &a[i], 4); oprintf("%s%u", i ? "," : "", b); } zfree(a); }
             if (ok) oprintf(";%zu", n); }
         else if (!strcmp(name, "PEXPRN")) {  /* PEXPRN:idx:mand -- parameter must be an expression; numeric list entry idx (double) */
-            scpi_parameter_t p; AFTER(atoi(a2)) ok = SCPI_Parameter(c, &p, mand); flushw(); oprintf(" P19:%d:", ok);
+            scpi_parameter_t p; AFTER(atoi(a2)) ok = SCPI_Parameter(c, &p, mand);
+            if (!ok) { flushw(); oprintf(" P19:0:"); }
             if (ok) { scpi_bool_t ir = 0; scpi_parameter_t f, t; memset(&f, 0, sizeof f); memset(&t, 0, sizeof t);
                 scpi_expr_result_t r = SCPI_ExprNumericListEntry(c, &p, atoi(a1), &ir, &f, &t);
-                oprintf("%d", (int) r); if (r == SCPI_EXPR_OK) { oprintf(",%d,%d,%d", ir ? 1 : 0, (int) (f.ptr - p.ptr), f.len); if (ir) oprintf(",%d,%d", (int) (t.ptr - p.ptr), t.len); } } }
+                flushw(); oprintf(" P19:1:%d", (int) r); if (r == SCPI_EXPR_OK) { oprintf(",%d,%d,%d", ir ? 1 : 0, (int) (f.ptr - p.ptr), f.len); if (ir) oprintf(",%d,%d", (int) (t.ptr - p.ptr), t.len); } } }
         else if (!strcmp(name, "PEXPRC")) {  /* PEXPRC:idx:cap:mand -- channel list entry */
-            scpi_parameter_t p; AFTER(atoi(a3)) ok = SCPI_Parameter(c, &p, mand); flushw(); oprintf(" P20:%d:", ok);
+            scpi_parameter_t p; AFTER(atoi(a3)) ok = SCPI_Parameter(c, &p, mand);
+            if (!ok) { flushw(); oprintf(" P20:0:"); }
             if (ok) { int cap = atoi(a2); scpi_bool_t ir = 0; size_t dims = 0; int32_t *f = zalloc(cap * 4), *t = zalloc(cap * 4);
                 scpi_expr_result_t r = SCPI_ExprChannelListEntry(c, &p, atoi(a1), &ir, cap ? f : NULL, cap ? t : NULL, cap, &dims);
-                oprintf("%d", (int) r);
+                flushw(); oprintf(" P20:1:%d", (int) r);
                 if (r == SCPI_EXPR_OK) { int m = cap < (int) dims ? cap : (int) dims; oprintf(",%d,%zu", ir ? 1 : 0, dims); for (int i = 0; i < m; i++) oprintf(",%d", f[i]); if (ir) for (int i = 0; i < m; i++) oprintf(",%d", t[i]); }
                 zfree(f); zfree(t); } }
         else if (!strcmp(name, "RI32")) SCPI_ResultInt32(c, (int32_t) strtoll(a1, 0, 10));
